@@ -221,6 +221,8 @@ impl Session {
         if already_closed {
             return Ok(());
         }
+        #[cfg(feature = "verif")]
+        crate::verif::point("cl:flag").await;
         self.close_notify.notify_waiters();
 
         // Close stream data receiver so process_stream_data exits
@@ -234,6 +236,8 @@ impl Session {
                 receive_map.remove(&stream_id);
             }
         }
+        #[cfg(feature = "verif")]
+        crate::verif::point("cl:drained").await;
 
         // Attempt to shutdown writer gracefully
         {
@@ -797,6 +801,8 @@ impl Session {
             tracing::warn!("[Session] Attempted to open stream on closed session");
             return Err(AnyTlsError::SessionClosed);
         }
+        #[cfg(feature = "verif")]
+        crate::verif::point("os:checked").await;
 
         let stream_id = self
             .stream_id
@@ -891,7 +897,11 @@ impl Session {
         // The buffer lock is held from the buffering decision until the bytes are on the
         // transport, so frames reach the wire in the order in which they were accepted here
         // (lock order: buffer -> writer; nothing takes the buffer lock while holding the writer).
+        #[cfg(feature = "verif")]
+        crate::verif::point("wf:enter").await;
         let mut buf = self.buffer.lock().await;
+        #[cfg(feature = "verif")]
+        crate::verif::point("wf:locked").await;
 
         // Nothing may be written (or buffered) once the session is closed
         if self.is_closed() {
@@ -955,6 +965,8 @@ impl Session {
 
         // Write with padding if enabled
         let result = self.write_with_padding(buffer).await;
+        #[cfg(feature = "verif")]
+        crate::verif::point("wf:done").await;
         drop(buf);
         result
     }
@@ -975,6 +987,8 @@ impl Session {
                 buffer.len()
             );
             let mut writer = self.writer.lock().await;
+            #[cfg(feature = "verif")]
+            crate::verif::point("wp:piece").await;
             if let Err(e) = writer.write_all(&buffer).await {
                 drop(writer);
                 return Err(self.handle_io_error("write_without_padding", e).await);
@@ -1005,6 +1019,8 @@ impl Session {
             // Note: We should probably disable send_padding, but that requires mutable access
             // For now, just write directly
             let mut writer = self.writer.lock().await;
+            #[cfg(feature = "verif")]
+            crate::verif::point("wp:piece").await;
             if let Err(e) = writer.write_all(&buffer).await {
                 drop(writer);
                 return Err(self.handle_io_error("write_no_padding_stop", e).await);
@@ -1022,6 +1038,8 @@ impl Session {
         // If no sizes defined, write directly
         if pkt_sizes.is_empty() {
             let mut writer = self.writer.lock().await;
+            #[cfg(feature = "verif")]
+            crate::verif::point("wp:piece").await;
             if let Err(e) = writer.write_all(&buffer).await {
                 drop(writer);
                 return Err(self.handle_io_error("write_no_padding_sizes", e).await);
@@ -1070,6 +1088,8 @@ impl Session {
                         &buffer[..7]
                     );
                 }
+                #[cfg(feature = "verif")]
+                crate::verif::point("wp:piece").await;
                 if let Err(e) = writer.write_all(&buffer[..size]).await {
                     drop(writer);
                     return Err(self.handle_io_error("write_padding_split_payload", e).await);
@@ -1092,6 +1112,8 @@ impl Session {
                     buffer.put_slice(&padding_frame);
                 }
 
+                #[cfg(feature = "verif")]
+                crate::verif::point("wp:piece").await;
                 if let Err(e) = writer.write_all(&buffer).await {
                     drop(writer);
                     return Err(self.handle_io_error("write_padding_payload_frame", e).await);
@@ -1105,6 +1127,8 @@ impl Session {
                 padding_frame.put_u16(size as u16);
                 padding_frame.put_slice(&vec![0u8; size]); // padding data (zeros)
 
+                #[cfg(feature = "verif")]
+                crate::verif::point("wp:piece").await;
                 if let Err(e) = writer.write_all(&padding_frame).await {
                     drop(writer);
                     return Err(self.handle_io_error("write_padding_frame_only", e).await);
@@ -1118,6 +1142,8 @@ impl Session {
                 "[Session] write_with_padding: Writing {} remaining payload bytes",
                 buffer.len()
             );
+            #[cfg(feature = "verif")]
+            crate::verif::point("wp:piece").await;
             if let Err(e) = writer.write_all(&buffer).await {
                 drop(writer);
                 return Err(self.handle_io_error("write_remaining_payload", e).await);
